@@ -106,6 +106,8 @@ pub struct Run {
 	pub samples: Vec<J>,
 	pub parts: Vec<J>,
 	pub exhaustive: bool,
+	/// evidence file name when it is not the property id (second part of a two-part check)
+	pub evidence_name: Option<String>,
 }
 
 impl Run {
@@ -122,6 +124,7 @@ impl Run {
 			samples: vec![],
 			parts: vec![],
 			exhaustive: true,
+			evidence_name: None,
 		}
 	}
 
@@ -195,7 +198,7 @@ impl Run {
 		});
 		let dir = out_root().join("evidence");
 		let _ = std::fs::create_dir_all(&dir);
-		let path = dir.join(format!("{}.json", self.property));
+		let path = dir.join(format!("{}.json", self.evidence_name.clone().unwrap_or_else(|| self.property.clone())));
 		std::fs::write(&path, serde_json::to_string_pretty(&ev).unwrap()).expect("write evidence");
 		println!(
 			"{} {}: {} in {:.1}s, evidence {}",
